@@ -8,7 +8,20 @@ package simcore
 import (
 	"fmt"
 	"hash/fnv"
+	"sort"
 )
+
+// SortedKeys returns the keys of m ordered by their printed form. The overlay
+// puts it where perkeep ranges over a map and the order matters for what
+// happens next (see overlay.orderedRanges).
+func SortedKeys[K comparable, V any](m map[K]V) []K {
+	ks := make([]K, 0, len(m))
+	for k := range m {
+		ks = append(ks, k)
+	}
+	sort.Slice(ks, func(i, j int) bool { return fmt.Sprint(ks[i]) < fmt.Sprint(ks[j]) })
+	return ks
+}
 
 // Rand is splitmix64: tiny, fast, and fully determined by its 64-bit state.
 type Rand struct{ s uint64 }
